@@ -12,8 +12,67 @@ import (
 // C02 — tagged value codec round-trips every value type, nested to any depth.
 func init() { register(&Checker{ID: "C02", Canaries: c02Canaries, Run: runC02}) }
 
+var c02Spec = `package value
+
+import "github.com/whatap/golib/io"
+
+// Reference decoders of the value format, written from the format description (one per type code),
+// independent of the library's own Read methods. Each real Write is matched against its reference.
+
+func zzSpecNullValue(this *NullValue, din *io.DataInputX)   {}
+func zzSpecBoolValue(this *BoolValue, din *io.DataInputX)   { this.Val = din.ReadBool() }
+func zzSpecDecimalValue(this *DecimalValue, din *io.DataInputX) { this.Val = din.ReadDecimal() }
+func zzSpecIntValue(this *IntValue, din *io.DataInputX)     { this.Val = din.ReadInt() }
+func zzSpecLongValue(this *LongValue, din *io.DataInputX)   { this.Val = din.ReadLong() }
+func zzSpecFloatValue(this *FloatValue, din *io.DataInputX) { this.Val = din.ReadFloat() }
+func zzSpecDoubleValue(this *DoubleValue, din *io.DataInputX) { this.Val = din.ReadDouble() }
+func zzSpecTextValue(this *TextValue, din *io.DataInputX)   { this.Val = din.ReadText() }
+func zzSpecTextHashValue(this *TextHashValue, din *io.DataInputX) { this.Val = din.ReadInt() }
+func zzSpecBlobValue(this *BlobValue, din *io.DataInputX)   { this.Val = din.ReadBlob() }
+func zzSpecIP4Value(this *IP4Value, din *io.DataInputX)     { this.Val = din.ReadBytes(4) }
+func zzSpecLongSummary(this *LongSummary, din *io.DataInputX) {
+	this.Sum = din.ReadLong()
+	this.Count = din.ReadInt()
+	this.Min = din.ReadLong()
+	this.Max = din.ReadLong()
+}
+func zzSpecDoubleSummary(this *DoubleSummary, din *io.DataInputX) {
+	this.Sum = din.ReadDouble()
+	this.Count = din.ReadInt()
+	this.Min = din.ReadDouble()
+	this.Max = din.ReadDouble()
+}
+func zzSpecIntArray(this *IntArray, din *io.DataInputX)     { this.Val = din.ReadIntArray() }
+func zzSpecLongArray(this *LongArray, din *io.DataInputX)   { this.Val = din.ReadLongArray() }
+func zzSpecFloatArray(this *FloatArray, din *io.DataInputX) { this.Val = din.ReadFloatArray() }
+func zzSpecTextArray(this *TextArray, din *io.DataInputX)   { this.Val = din.ReadTextArray() }
+func zzSpecListValue(this *ListValue, din *io.DataInputX) {
+	n := int(din.ReadDecimal())
+	for i := 0; i < n; i++ {
+		this.table = append(this.table, ReadValue(din))
+	}
+}
+func zzSpecMapValue(this *MapValue, din *io.DataInputX) {
+	n := int(din.ReadDecimal())
+	for i := 0; i < n; i++ {
+		key := din.ReadText()
+		this.table.Put(key, ReadValue(din))
+	}
+}
+func zzSpecIntMapValue(this *IntMapValue, din *io.DataInputX) {
+	n := int(din.ReadDecimal())
+	for i := 0; i < n; i++ {
+		key := din.ReadInt()
+		this.table.Put(key, ReadValue(din))
+	}
+}
+`
+
+var c02SpecTypes = []string{"NullValue", "BoolValue", "DecimalValue", "IntValue", "LongValue", "FloatValue", "DoubleValue", "TextValue", "TextHashValue", "BlobValue", "IP4Value",
+	"LongSummary", "DoubleSummary", "IntArray", "LongArray", "FloatArray", "TextArray", "ListValue", "MapValue", "IntMapValue"}
+
 func c02Canaries() []core.Canary {
-	return []core.Canary{{RelDir: "lang/value", Name: "c02", Src: `package value
+	return []core.Canary{{RelDir: "lang/value", Name: "c02spec", Src: c02Spec, Spec: true}, {RelDir: "lang/value", Name: "c02", Src: `package value
 
 import "github.com/whatap/golib/io"
 
@@ -30,13 +89,14 @@ func (this *zzCanaryVal) Read(in *io.DataInputX)  { this.A = in.ReadInt(); this.
 
 func runC02(p *core.Program, r *core.Report) {
 	r.Explanation = "Static agreement of the tagged value codec (lang/value): CreateValue's tag switch against every type's GetValueType(); Write~Read wire-grammar agreement for every value type on every joint path (containers as count-prefixed repetitions of tagged values, closed co-inductively through the WriteValue~ReadValue pair); insertion/enumeration order of the map and list containers. Nothing is executed."
-	r.NotDecided = []string{"equality of content after the round trip (depends on C09 for the backing maps and C20 for Equals)", "byte equality with an external reference encoder beyond layout (C01 decides the primitive bytes)"}
+	r.NotDecided = []string{"equality of content after the round trip (depends on C09 for the backing maps and C20 for Equals)", "whether the hand-written value-format reference is what non-Go peers implement (frozen from the reviewed writers); byte equality for concrete values follows from layout + C01 and is not executed"}
 	r.Assumptions = []string{"io primitives have the layouts proved in C01", "recursive occurrences of Value are under a tag read, so the co-inductive use of the WriteValue~ReadValue pair is sound"}
 	x := wire.NewExtractor(p)
 	r.Rule("C02.registry", "CreateValue case K creates a type whose GetValueType() returns K; no tag twice", 20)
 	r.Rule("C02.pairs", "Write~Read of every value type (and WriteValue~ReadValue) agree on the layout on every joint path", 20)
 	r.Rule("C02.fields", "each written field is stored by the reader into the same field", 18)
 	r.Rule("C02.countlink", "container readers loop over the count the writer emitted", 18)
+	r.Rule("C02.reference", "every value type's Write emits exactly the layout of an independent reference decoder of the value format (kinds, order, counts, fields)", 20)
 	r.Rule("C02.fresh", "every value the factory hands out is freshly allocated (no shared instances that a later Read overwrites)", 20)
 	r.Rule("C02.order", "containers are rebuilt in the order written: reader appends at the tail, writer enumerates from the head", 3)
 	for _, sfx := range []struct{ s, doc string }{{"insert", "new key: one bucket insertion, one tail link, one size increment"}, {"update", "existing key: size/buckets unchanged"},
@@ -53,6 +113,25 @@ func runC02(p *core.Program, r *core.Report) {
 	}
 	pairs, _ := discoverPairs(p, x, []string{"lang/value"})
 	runPairs(p, x, r, pairs, pairRules{"C02.pairs", "C02.fields", "C02.countlink"}, tierDepth(r))
+	// the real writers against the hand-written reference decoders (overlay)
+	var refPairs []codecPair
+	for _, name := range c02SpecTypes {
+		w := p.Method("lang/value", name, "Write")
+		s := p.Func("lang/value", "zzSpec"+name)
+		cn := "lang/value.(*" + name + ").Write ~ reference"
+		if w == nil || s == nil {
+			r.Undec("C02.reference", cn, "-", "writer or reference decoder not found")
+			continue
+		}
+		wo, _ := x.StreamParams(w)
+		_, si := x.StreamParams(s)
+		if len(wo) != 1 || len(si) != 1 {
+			r.Undec("C02.reference", cn, "-", "stream parameters not found")
+			continue
+		}
+		refPairs = append(refPairs, codecPair{W: w, R: s, WS: wo[0], RS: si[0], Name: cn})
+	}
+	runPairs(p, x, r, refPairs, pairRules{"C02.reference", "C02.reference", "C02.reference"}, tierDepth(r))
 	c02Order(p, r)
 	c02Backing(p, r)
 	checkFactoryFresh(p, r, "C02.fresh", "lang/value", "CreateValue")
